@@ -67,6 +67,10 @@ def gen(rng, tier):
                         n += 1
                         yield {"family": "keepalive_max.h2.with-push", "kind": "keepalive_max", "limit": limit, "proto": "h2", "pace": "sequential",
                                "nreq": limit + 3, "tag": n, "seed": rng.randrange(1 << 30), "app_delay": 0, "push": True}
+                        # every application tries to push, towards a client that has switched pushes off (as browsers and curl do)
+                        n += 1
+                        yield {"family": "keepalive_max.h2.push-refused", "kind": "keepalive_max", "limit": limit, "proto": "h2", "pace": "sequential",
+                               "nreq": limit + 3, "tag": n, "seed": rng.randrange(1 << 30), "app_delay": 0, "push": "all-refused"}
                     if proto == "h2" and pace == "burst":
                         n += 1
                         yield {"family": "keepalive_max.h2.blocked-flush", "kind": "keepalive_max", "limit": limit, "proto": "h2", "pace": "blocked-flush",
@@ -214,7 +218,8 @@ def run_one(case, tally):
             for tg in tags:
                 by_tag[str(tg)] = _tag_app(tg, delay=case["app_delay"], extra=[tuple(case["app_header"])] if case.get("app_header") else ())
             if case.get("push"):
-                by_tag[str(tags[0])] = [["recv_until_end"], ["try_send", {"type": "http.response.push", "path": "/pushed", "headers": []}]] + by_tag[str(tags[0])][1:]
+                for tg in (tags if case["push"] == "all-refused" else tags[:1]):
+                    by_tag[str(tg)] = [["recv_until_end"], ["try_send", {"type": "http.response.push", "path": "/pushed", "headers": []}]] + by_tag[str(tg)][1:]
             if case["proto"] == "h1":
                 reqs = [b"GET /t%d HTTP/1.1\r\nHost: h\r\n\r\n" % tg for tg in tags]
                 client = [["feed", b"".join(reqs)]] if case["pace"] == "burst" else [["feed", r] for r in reqs]
@@ -254,7 +259,7 @@ def run_one(case, tally):
                 nreq = n_pre + 1
             else:
                 fb = FrameBuilder()
-                pre = client_preface(fb, {})
+                pre = client_preface(fb, {"extra_settings": {2: 0}} if case.get("push") == "all-refused" else {})  # SETTINGS_ENABLE_PUSH = 0
                 frames = [fb.headers(1 + 2 * i, [(b":method", b"GET"), (b":scheme", b"http"), (b":path", b"/t%d" % tg), (b":authority", b"h")], end_stream=True)
                           for i, tg in enumerate(tags)]
                 client = [["feed", pre + b"".join(frames)]] if case["pace"] == "burst" else [["feed", pre]] + [["feed", f] for f in frames]
